@@ -38,7 +38,7 @@ func init() {
 					cells = append(cells, "deny/"+rule+"/"+pos)
 				}
 			}
-			cells = append(cells, "deny/first-aud/first", "deny/root/last", "dev/foreign-root", "dev/swap", "dev/dup", "dev/truncate")
+			cells = append(cells, "deny/first-aud/first", "deny/root/last", "dev/foreign-root", "dev/swap", "dev/dup", "dev/truncate", "dev/non-delegation")
 			for n := 1; n <= 6; n++ {
 				cells = append(cells, fmt.Sprintf("allow/n=%d", n))
 			}
@@ -76,7 +76,10 @@ func deviate(r *rand.Rand, s *chain.Scenario) {
 	case 1:
 		i = n - 1
 	}
-	switch r.IntN(14) {
+	switch r.IntN(15) {
+	case 14:
+		s.Links[i].NonDlg = true
+		s.Deviations = append(s.Deviations, fmt.Sprintf("non-delegation@%d", i))
 	case 0:
 		s.Links = nil
 		s.Deviations = append(s.Deviations, "empty")
